@@ -1,4 +1,5 @@
 import Pds.Proofs.KernelTie.TdCore
+import Pds.Proofs.KernelTie.TdRead
 /-!
 # C16 — tie by translation: `Centroid::fuse` and `Centroid::mean` of `src/tdigest.rs`
 (the only arithmetic on which count/sum/mean depend).
@@ -10,5 +11,7 @@ variable {α : Type} [Field α] [LinearOrder α] [IsStrictOrderedRing α] [KOps 
 theorem fuse_translated (a b : Centroid α) :
     Centroid_fuse a.sum a.count b.sum b.count = ((a.fuse b).sum, (a.fuse b).count) := centroid_fuse a b
 theorem mean_translated (c : Centroid α) : Centroid_mean c.sum c.count = c.mean := centroid_mean c
+
+theorem count_translated (cs : List (Centroid α)) : td_count cs = totalCount cs := td_count_eq cs
 
 end Pds.Tie.C16
